@@ -66,7 +66,85 @@ func genPop3Consts(repo string) (string, error) {
 		return "", fmt.Errorf("var commands not found in pkg/server/pop3/handler.go")
 	}
 	sort.Strings(names)
-	out := coqHeader("POP3: the keys of `commands` (pkg/server/pop3/handler.go) that map to true.")
-	out += "Definition pop3_commands : list (list N) :=\n  " + coqStrList(names) + ".\n"
+	out := coqHeader("POP3: the keys of `commands` (pkg/server/pop3/handler.go) that map to true; the case labels of the\n    `switch cmd` of authorizationHandler / transactionHandler (every other command of the table falls to the\n    default branch = out of sequence in that state); the words startSession compares cmd with (answered in any state).")
+	out += "Definition pop3_commands : list (list N) :=\n  " + coqStrList(names) + ".\n\n"
+	for _, h := range []struct{ fn, def string }{
+		{"Session.authorizationHandler", "pop3_auth_cases"},
+		{"Session.transactionHandler", "pop3_trans_cases"},
+	} {
+		d := findFunc(f, h.fn)
+		if d == nil {
+			return "", fmt.Errorf("%s not found", h.fn)
+		}
+		cases, err := switchCases(d, "cmd")
+		if err != nil {
+			return "", fmt.Errorf("%s: %v", h.fn, err)
+		}
+		sort.Strings(cases)
+		out += "Definition " + h.def + " : list (list N) :=\n  " + coqStrList(cases) + ".\n\n"
+	}
+	d := findFunc(f, "Server.startSession")
+	if d == nil {
+		return "", fmt.Errorf("Server.startSession not found")
+	}
+	var any []string
+	ast.Inspect(d, func(n ast.Node) bool {
+		be, ok := n.(*ast.BinaryExpr)
+		if !ok || be.Op != token.EQL {
+			return true
+		}
+		id, ok1 := be.X.(*ast.Ident)
+		lit, ok2 := be.Y.(*ast.BasicLit)
+		if ok1 && ok2 && id.Name == "cmd" && lit.Kind == token.STRING {
+			if s, err := strconv.Unquote(lit.Value); err == nil && s != "" {
+				any = append(any, s)
+			}
+		}
+		return true
+	})
+	sort.Strings(any)
+	out += "Definition pop3_anystate : list (list N) :=\n  " + coqStrList(any) + ".\n"
+	return out, nil
+}
+
+// switchCases returns the string case labels of the single `switch <tag>` statement of a function.
+func switchCases(d *ast.FuncDecl, tag string) ([]string, error) {
+	var out []string
+	found := 0
+	var ferr error
+	ast.Inspect(d, func(n ast.Node) bool {
+		sw, ok := n.(*ast.SwitchStmt)
+		if !ok {
+			return true
+		}
+		id, ok := sw.Tag.(*ast.Ident)
+		if !ok || id.Name != tag {
+			return true
+		}
+		found++
+		for _, st := range sw.Body.List {
+			cc := st.(*ast.CaseClause)
+			for _, e := range cc.List {
+				lit, ok := e.(*ast.BasicLit)
+				if !ok || lit.Kind != token.STRING {
+					ferr = fmt.Errorf("non-literal case label")
+					return false
+				}
+				s, err := strconv.Unquote(lit.Value)
+				if err != nil {
+					ferr = err
+					return false
+				}
+				out = append(out, s)
+			}
+		}
+		return true
+	})
+	if ferr != nil {
+		return nil, ferr
+	}
+	if found != 1 {
+		return nil, fmt.Errorf("expected one switch on %s, found %d", tag, found)
+	}
 	return out, nil
 }
